@@ -79,6 +79,11 @@ def handle : List String → String
     | some bs, some c =>
       res (fun (a, b, l, d) => s!"ok {a} {b} {l} {bytesTok d}") (ringRun ringCap maxReadAhead bs c)
     | _, _ => "bad-op"
+  | ["ringaligned", bs, consumed, _readSize, _innerChunk] =>
+    match tokBytes bs, consumed.toNat? with
+    | some bs, some c =>
+      res (fun (a, t, l) => s!"ok {boolTok a} {charsTok t} {l}") (ringRunAligned ringCap maxReadAhead bs c)
+    | _, _ => "bad-op"
   | _ => "bad-op"
 
 end Driver.Snippet
